@@ -203,7 +203,7 @@ prop("C02", "other",
      "IpAddress octet order; no overflow site in the decoders (shared with C01)."
      " Added in rounds 4-5: the zero-copy decoders (OID, RELATIVE-OID, OCTET STRING, Opaque, ObjectDescriptor, SEQUENCE, [n]) have no error exit; in each numeric decoder some read reaches h.length (cover observation of num); an overflow guard before `T << k` refuses only values that overflow; a RELATIVE-OID name is resolved against the preceding varbind.",
      [("C02.dispatch", codec.dispatch), ("C02.pair", codec.pair), ("C02.extent", codec.extent), ("C02.width", codec.width), ("C02.hdr", codec.hdr_reject), ("C02.oidtext", codec.oid_print), ("C02.decrypt", only(crypto.priv_layout, "decrypt")), ("C02.textreject", codec.oid_to_text_rejections),
-      ("C02.fold", codec.fold), ("C02.ip", codec.ipaddr), ("C02.sites", codec.hdr_contract), ("C02.shiftguard", codec.shift_guards), ("C02.tail", codec.tail_cover), ("C02.total", codec.zero_copy_total), ("C02.relbase", c07.relative_base)])
+      ("C02.fold", codec.fold), ("C02.ip", codec.ipaddr), ("C02.sites", codec.hdr_contract), ("C02.shiftguard", codec.shift_guards), ("C02.tail", codec.tail_cover), ("C02.total", codec.zero_copy_total), ("C02.relbase", c07.relative_base), ("C02.capacity", codec.capacity_exits)])
 
 prop("C08", "other",
      "Structure and intervals of SnmpOid::try_from(&str): no value-altering call (min/max/clamp/saturating/wrapping/unwrap_or) "
@@ -212,7 +212,7 @@ prop("C08", "other",
      "arcs mandatory; every panic site of both conversions discharged; OID text enters only through this conversion and a "
      "failure returns before the send. NOT decided: print(parse(s)) = s and the base-128 arithmetic of rewritten encoders."
      " Added in rounds 4-5: overflow guards exact; the OID decoder is total.",
-     [("C08.text", codec.oid_text), ("C08.entry", codec.oid_entry), ("C08.sites", numrules.c08_sites), ("C08.print", codec.oid_print), ("C08.reject", codec.oid_text_rejections), ("C08.arcloop", codec.arc_loop_exits), ("C08.textreject", codec.oid_to_text_rejections), ("C08.handlen", crypto.hand_lengths), ("C08.shiftguard", codec.shift_guards), ("C08.total", codec.zero_copy_total)])
+     [("C08.text", codec.oid_text), ("C08.entry", codec.oid_entry), ("C08.sites", numrules.c08_sites), ("C08.print", codec.oid_print), ("C08.reject", codec.oid_text_rejections), ("C08.arcloop", codec.arc_loop_exits), ("C08.textreject", codec.oid_to_text_rejections), ("C08.handlen", crypto.hand_lengths), ("C08.shiftguard", codec.shift_guards), ("C08.total", codec.zero_copy_total), ("C08.capacity", codec.capacity_exits)])
 
 prop("C15", "other",
      "Necessary conditions only (round-trip equality over all i64 / OIDs is NOT decided): no undischarged overflow, negation or "
@@ -220,7 +220,7 @@ prop("C15", "other",
      "push_tag_len (short / 0x81 / 0x82 with the octets in order and ensure_size covering them); the fixed encodings (ZERO_BER, "
      "NULL_BER, EMPTY_BER, version constants) are minimal TLVs; PDU tag tables of encoder and decoder agree with RFC 3416."
      " Added in rounds 4-5: decoded flag_* are bits 0/1/2 of the octet for all 256 values (mirror of the encoder's table); ensure_size refuses only what does not fit; push_tagged / push_tag_len write a header of at least two octets on success, also for empty contents; literal one-octet INTEGER range.",
-     [("C15.nowrap", numrules.c15_nowrap), ("C15.len", codec.length_forms), ("C15.hdr", codec.hdr_reject), ("C15.pdu", codec.pdu_tags), ("C15.oid", codec.oid_text), ("C15.nested", crypto.nested_lengths), ("C15.mirror", crypto.layout_mirror), ("C15.dec", only(codec.width, "SnmpInt")), ("C15.handlen", crypto.hand_lengths), ("C15.flags", crypto.msg_flags_decode), ("C15.msgflags", crypto.msg_flags), ("C15.tail", codec.tail_cover), ("C15.shiftguard", codec.shift_guards), ("C15.ensure", only(numrules.c17_sites, "ensure_size", "push_tag_len", "push_tagged")), ("C15.intlit", crypto.literal_int_tlv)])
+     [("C15.nowrap", numrules.c15_nowrap), ("C15.len", codec.length_forms), ("C15.hdr", codec.hdr_reject), ("C15.pdu", codec.pdu_tags), ("C15.oid", codec.oid_text), ("C15.nested", crypto.nested_lengths), ("C15.mirror", crypto.layout_mirror), ("C15.dec", only(codec.width, "SnmpInt")), ("C15.handlen", crypto.hand_lengths), ("C15.flags", crypto.msg_flags_decode), ("C15.msgflags", crypto.msg_flags), ("C15.tail", codec.tail_cover), ("C15.shiftguard", codec.shift_guards), ("C15.ensure", only(numrules.c17_sites, "ensure_size", "push_tag_len", "push_tagged")), ("C15.intlit", crypto.literal_int_tlv), ("C15.capacity", codec.capacity_exits)])
 
 from .rules import crypto  # noqa: E402
 
